@@ -50,6 +50,7 @@ func newWatcher(ctx context.Context, log logutil.Log, stopch <-chan struct{}, cl
 		ctx:     ctx,
 	}
 
+	verifTrace(w, "watcher.new")
 	go w.lc.WatchContext(ctx)
 	go w.lc.WatchChannel(stopch)
 	go w.run()
@@ -102,6 +103,7 @@ mainloop:
 
 		select {
 		case err := <-w.lc.ShutdownRequest():
+			verifTrace(w, "watcher.stopping", err)
 			w.log.Debugf("shutdown request: %v", err)
 			w.lc.ShutdownInitiated(err)
 			break mainloop
@@ -118,8 +120,10 @@ mainloop:
 			session = newWatchSession(ctx, w.log, w.client, vsn)
 			outch = make(chan Event, EventBufsiz)
 			curVersion = vsn
+			verifTrace(w, "watcher.reset", vsn, session)
 
 		case <-session.done():
+			verifTrace(w, "watcher.sessiondone", curVersion, session)
 			w.log.Debugf("session done.  retrying version %v in %v", curVersion, watchRetryDelay)
 
 			session.stop()
@@ -135,12 +139,15 @@ mainloop:
 			retry = nil
 			session.stop()
 			session = newWatchSession(ctx, w.log, w.client, curVersion)
+			verifTrace(w, "watcher.retry", curVersion, session)
 
 		case evt := <-session.events():
+			verifTrace(w, "watcher.in", evt, session)
 
 			select {
 			case outch <- evt:
 			default:
+				verifTrace(w, "watcher.drop", evt)
 				w.log.Errorf("output buffer full")
 			}
 
@@ -149,6 +156,7 @@ mainloop:
 			w.log.Debugf("session event: %v version: %v", evt, curVersion)
 
 		case reqch := <-w.evtch:
+			verifTrace(w, "watcher.events", outch != nil)
 			reqch <- outch
 		}
 	}
@@ -161,6 +169,7 @@ mainloop:
 	if donech := session.done(); donech != nil {
 		<-donech
 	}
+	verifTrace(w, "watcher.done")
 }
 
 func (w *_watcher) scheduleRetry(ch chan string, vsn string) *time.Timer {
